@@ -294,7 +294,7 @@ def selftest(pid, wd, tpath, skip_runs=()):
 def stats_of(tpath):
     st = {"runs": 0, "second_stage_confirmed": 0, "runs_with_second_stage": 0, "claims": 0, "rebumps": 0, "spendable": 0,
           "sweeps": 0, "reloads": 0, "htlc_outputs": 0, "revoked_runs": 0, "honest_runs": 0, "types": {}, "kinds": {},
-          "styles": set(), "blocks": 0}
+          "styles": set(), "blocks": 0, "stale_broadcasts": 0}
     cur = None
     agent, conf = set(), set()
     with open(tpath) as f:
@@ -317,6 +317,8 @@ def stats_of(tpath):
                     agent.add(e["tx"])
                 if e["by"] < 2 and e["kind"] == "Claim":
                     st["claims"] += 1
+                if e["by"] < 2 and e.get("stale"):
+                    st["stale_broadcasts"] += 1
             elif e["ev"] == "block":
                 st["blocks"] += 1
                 for t in e["txs"]:
@@ -387,7 +389,7 @@ def run_check(pid, tier, seed, assumptions):
     _write(spath, conv)
 
     # ---- the real code
-    nrand = 3000 if thorough else 330
+    nrand = 6000 if thorough else 330
     batches = [("tlc", ["--scripts", spath]), ("random", ["--random", nrand, "--profile", prof])]
     nviol, total_events, total_runs, panics, known_hits = 0, 0, 0, 0, {}
     stats, good_traces, bad_runs = {}, [], {}
@@ -431,7 +433,7 @@ def run_check(pid, tier, seed, assumptions):
 
     # ---- vacuity of the drivers
     allst = {k: sum(stats[b][k] for b in stats) for k in ("runs", "second_stage_confirmed", "runs_with_second_stage", "claims",
-                                                         "spendable", "sweeps", "reloads", "htlc_outputs", "revoked_runs", "honest_runs", "blocks")}
+                                                         "spendable", "sweeps", "reloads", "htlc_outputs", "revoked_runs", "honest_runs", "blocks", "stale_broadcasts")}
     if pid == "C06":
         if allst["revoked_runs"] < 0.9 * allst["runs"] or allst["runs_with_second_stage"] * 6 < allst["runs"]:
             raise vlib.ToolError("vacuity: drivers do not exercise revoked closes with second-stage transactions: %s" % allst)
